@@ -82,7 +82,7 @@ impl FileInfo {
         let mut entries = vec![];
 
         for path in files {
-            let file = &read(path).expect("Cannot read file.");
+            let file = &read(path).ok()?;
 
             entries.push(FIINEntry {
                 file_size: file.len() as i32,
